@@ -368,6 +368,9 @@ type MakeObs struct {
 	Sizes       []int64 `json:"sizes"`
 	Ok          []bool  `json:"ok"`
 	NeighbourOK bool    `json:"neighbour_ok"`
+	// channel.select() without any case must be refused (catchably, at once): Go's select{}
+	// blocks for ever and, as the last runnable goroutine, ends the process
+	EmptySelectRefused bool `json:"empty_select_refused"`
 }
 
 // Each size goes through pcall(channel.make, n) in state A while state B computes in another
@@ -403,10 +406,151 @@ func runMake(spec *MakeSpec) Result {
 		obs.Ok = append(obs.Ok, ok && isch)
 	}
 	wg.Wait()
+	sel := make(chan bool, 1)
+	go func() {
+		S := lua.NewState()
+		err := S.DoString("local ok = pcall(channel.select) return ok")
+		sel <- err == nil && S.Get(-1) == lua.LFalse
+	}()
+	select {
+	case obs.EmptySelectRefused = <-sel:
+	case <-time.After(3 * time.Second):
+		obs.EmptySelectRefused = false
+	}
 	r := Result{Status: "ok", Make: obs, Errs: errs}
 	if len(errs) > 0 {
 		r.Status = "error"
 		r.Msg = strings.Join(errs, "; ")
 	}
 	return r
+}
+
+// ---------- receiving at the registry / call-stack limit, with retry ("limit" jobs) ----------
+
+type LimitSpec struct {
+	Mode      string `json:"mode"` // receive | select | handler
+	Fat       bool   `json:"fat"`  // fat frames: the registry fills first; thin frames: the call stack fills first
+	N         int    `json:"n"`
+	Cap       int    `json:"cap"`
+	RegSize   int    `json:"reg_size"`
+	RegMax    int    `json:"reg_max"`
+	CallStack int    `json:"call_stack"`
+	TimeoutMs int    `json:"timeout_ms"`
+}
+
+// A consumer that receives at the bottom of a recursion of growing depth, under pcall, and retries
+// with another register alignment whenever a call fails (what a robust consumer does). A receive
+// that ends in an error ("registry overflow", "stack overflow") must not have consumed anything:
+// every value sent arrives, once, in order.
+const limitConsumer = `
+local ch, mode, fat = CHAN, MODE, FAT
+local got, closed, failures, disorder, last = 0, false, 0, 0, 0
+local r_ok, r_v
+local case = {"|<-", ch}
+local hcase = {"|<-", ch, function(ok, v) r_ok, r_v = ok, v end}
+local h
+if mode == "receive" then
+  h = function() r_ok, r_v = ch:receive() end
+elseif mode == "select" then
+  h = function() local i; i, r_v, r_ok = channel.select(case) end
+else
+  h = function() r_ok = nil; channel.select(hcase); if r_ok == nil then error("handler not run") end end
+end
+local function take()
+  h()
+  if r_ok then
+    got = got + 1
+    if r_v <= last then disorder = disorder + 1 end
+    last = r_v
+  else closed = true end
+end
+local f
+if fat then
+  f = function(d)
+    local l01,l02,l03,l04,l05,l06,l07,l08,l09,l10,l11,l12,l13,l14,l15,l16,l17,l18,l19,l20
+    local m01,m02,m03,m04,m05,m06,m07,m08,m09,m10,m11,m12,m13,m14,m15,m16,m17,m18,m19,m20
+    if d == 0 then take() return 1 end
+    local a = f(d - 1)
+    return a
+  end
+else
+  f = function(d)
+    if d == 0 then take() return 1 end
+    local a = f(d - 1)
+    return a
+  end
+end
+local function g(d, ...) local a = f(d) return a end
+local function pad(k) local t = {} for i = 1, k do t[i] = i end return unpack(t) end
+local k, d, rounds = 0, 2, 0
+while not closed and rounds < 200000 do
+  rounds = rounds + 1
+  local ok, err = pcall(g, d, pad(k))
+  if ok then
+    d = d + 1
+  else
+    failures = failures + 1
+    k = k + 1
+    d = 2
+    if k > 50 then k = 0 end
+  end
+end
+return got, failures, disorder
+`
+
+func runLimit(spec *LimitSpec) Result {
+	runtime.GOMAXPROCS(4)
+	ch := make(chan lua.LValue, spec.Cap)
+	perr := make(chan error, 1)
+	go func() {
+		L := lua.NewState()
+		defer L.Close()
+		L.SetGlobal("CHAN", lua.LChannel(ch))
+		perr <- L.DoString(fmt.Sprintf("for i = 1, %d do CHAN:send(i) end CHAN:close()", spec.N))
+	}()
+	type out struct {
+		got, failures, disorder int64
+		err                     error
+	}
+	res := make(chan out, 1)
+	go func() {
+		L := lua.NewState(lua.Options{RegistrySize: spec.RegSize, RegistryMaxSize: spec.RegMax, RegistryGrowStep: 32, CallStackSize: spec.CallStack})
+		defer L.Close()
+		L.SetGlobal("CHAN", lua.LChannel(ch))
+		L.SetGlobal("MODE", lua.LString(spec.Mode))
+		L.SetGlobal("FAT", lua.LBool(spec.Fat))
+		fn, err := L.LoadString(limitConsumer)
+		if err != nil {
+			res <- out{err: err}
+			return
+		}
+		L.Push(fn)
+		if err := L.PCall(0, 3, nil); err != nil {
+			res <- out{err: err}
+			return
+		}
+		res <- out{got: int64(lua.LVAsNumber(L.Get(-3))), failures: int64(lua.LVAsNumber(L.Get(-2))), disorder: int64(lua.LVAsNumber(L.Get(-1)))}
+	}()
+	to := spec.TimeoutMs
+	if to <= 0 {
+		to = 60000
+	}
+	select {
+	case o := <-res:
+		if o.err != nil {
+			return Result{Status: "error", Msg: "consumer: " + trunc(o.err.Error(), 300)}
+		}
+		select {
+		case e := <-perr:
+			if e != nil {
+				return Result{Status: "error", Msg: "producer: " + trunc(e.Error(), 300)}
+			}
+		case <-time.After(5 * time.Second):
+			return Result{Status: "hang", Msg: "producer still blocked after the consumer saw the channel closed"}
+		}
+		// Early carries the number of failed (retried) calls for the record; it is not a violation
+		return Result{Status: "ok", Stress: &StressObs{Sent: int64(spec.N), Recvd: o.got, Disorder: o.disorder}, Msg: fmt.Sprintf("retried calls: %d", o.failures)}
+	case <-time.After(time.Duration(to) * time.Millisecond):
+		return Result{Status: "hang", Msg: "limit job still running after the time limit"}
+	}
 }
